@@ -52,6 +52,9 @@ def jobs(tier):
         J.append(Job("C08.method_missing.%s" % t, "C08", "K2", "Type/dispatch.c", "h_method_missing", FUNCS, link=link, defines=["TYPE_UNDER_TEST=%s" % t],
                      replace_calls=["exception_throw:cv_throw"], unwind=24, gen={"gen_objects.h": hdr}, group="C08.method_missing.k2", also=["C12"],
                      case="type %s" % t, timeout=900))
+    for t in ["Int", "Array", "Type"]:
+        J.append(Job("C08.cast.%s" % t, "C08", "K2", "Type/dispatch.c", "h_cast", ["cast", "Type_Of", "type_of"], link=link, defines=["TYPE_UNDER_TEST=%s" % t],
+                     replace_calls=["exception_throw:cv_throw"], unwind=24, gen={"gen_objects.h": hdr}, group="C08.cast.k2", also=["C12", "C19"], case="type %s" % t, timeout=600))
     # run-time types: every instance list of <= NMAX entries over three class names that are prefixes of each other
     import itertools
     nmax = 2
